@@ -470,6 +470,11 @@ simcam_start(struct Camera* camera)
     self->streamer.is_running = 1;
     self->im.last_emitted_frame_id = -1;
     self->im.frame_id = -1;
+    // stop() fires the trigger to release a waiting streamer; if the streamer
+    // was not waiting, that trigger (and the frame request) would otherwise
+    // survive into this run and produce a frame nobody triggered
+    self->software_trigger.triggered = 0;
+    self->im.frame_wanted = 0;
     TRACE("SIMULATED CAMERA: thread launch");
     CHECK(thread_create(&self->streamer.thread,
                         (void (*)(void*))simulated_camera_streamer_thread,
